@@ -9,10 +9,12 @@ for l in open('/verif/properties.jsonl'):
         a = p['anchors']
         anchors = "files: " + ", ".join(a.get('files', [])) + "; mechanisms: " + "; ".join("%s (%s)" % (m['name'], m['where']) for m in a.get('mechanism', []))
         if rnd:
-            areas = json.load(open('/verif/tools/seed_areas_r6.json' if rnd == 'v' else '/verif/tools/seed_areas_r5.json' if rnd == 'u' else '/verif/tools/seed_areas_r4.json' if rnd == 't' else '/verif/tools/seed_areas_r3.json' if rnd == 's' else '/verif/tools/seed_areas.json'))[pid]
+            areas = json.load(open('/verif/tools/seed_areas_r7.json' if rnd == 'w' else '/verif/tools/seed_areas_r6.json' if rnd == 'v' else '/verif/tools/seed_areas_r5.json' if rnd == 'u' else '/verif/tools/seed_areas_r4.json' if rnd == 't' else '/verif/tools/seed_areas_r3.json' if rnd == 's' else '/verif/tools/seed_areas.json'))[pid]
             n = areas.count('(') if pid == 'C13' else 2
-            t = t.replace('The two defects must be in different mechanisms / different functions of the property (do not submit two variants of the same edit).', ('Write one defect of each of THESE kinds: ' if rnd in ('s', 't', 'u', 'v') else 'Place the defects in THESE areas, one defect per numbered area (these parts of the property have not been probed yet): ') + areas + '. If an area turns out to be impossible, pick the closest mechanism of the property and say so.')
+            t = t.replace('The two defects must be in different mechanisms / different functions of the property (do not submit two variants of the same edit).', ('Write ' if rnd == 'w' else 'Write one defect of each of THESE kinds: ' if rnd in ('s', 't', 'u', 'v') else 'Place the defects in THESE areas, one defect per numbered area (these parts of the property have not been probed yet): ') + areas + '. If an area turns out to be impossible, pick the closest mechanism of the property and say so.')
             t = t.replace('seed/{ID}-N/', 'seed/{ID}-' + rnd + 'N/').replace('for each of the two defects N in {1,2}', 'for each defect N in {1,2' + (',3' if pid == 'C13' else '') + '}')
-            if pid == 'C13':
+            if rnd == 'w':
+                t = t.replace('write TWO different, realistic code changes', 'write ONE realistic code change').replace('that each BREAK', 'that BREAKS').replace('for each defect N in {1,2,3}', 'for N=1').replace('for each defect N in {1,2}', 'for N=1')
+            elif pid == 'C13':
                 t = t.replace('write TWO different', 'write THREE different')
         print(t.replace('{ID}', pid).replace('{WT}', wt).replace('{TITLE}', p['title']).replace('{STATEMENT}', p['statement']).replace('{QUANT}', p['quantifier']['text']).replace('{ANCHORS}', anchors))
